@@ -327,8 +327,12 @@ Section GenAgree.
   Variables Keys Dash : list name.
   Hypothesis HDash : forall k, In k Dash -> starts_uu k = false.
   Hypothesis HComp : incl (composites S) Dash.
+  Variable en : name -> name.
+  Variable cn : name -> name -> name.
+  Hypothesis Hen : forall n, en n = n.
+  Hypothesis Hcn : forall n v, cn n v = enum_const n v.
   Notation gen := (gen_named no_quirks S fragTypes).
-  Notation gens := (gen_named_s S fragTypes).
+  Notation gens := (gen_named_s S fragTypes en cn).
   Notation SelsInD := (SelsIn Keys Dash).
 
   Lemma gen_agree : forall fuel mm sels st,
@@ -410,9 +414,100 @@ Section GenAgree.
       rewrite (fs_agree S mm sels fields I1 F3 Hmem Huu).
       rewrite (steps_agree S mm d sels fields conds I1 F3 Hmem).
       destruct conds; reflexivity. }
-    destruct d; try reflexivity; apply Hcomp; exact I.
+    destruct d as [n0 ifs fs|n0 fs|n0 ms|n0 vs|n0]; try reflexivity; try (apply Hcomp; exact I).
+    (* an enum: the pre-assigned names are the usual ones *)
+    rewrite Hen. unfold emit_enum_s, emit_enum. rewrite Hen.
+    destruct (assoc mm (g_enums st)); [reflexivity|].
+    assert (E : map (fun v => (cn mm v, v)) vs = map (fun v => (enum_const mm v, v)) vs) by (apply map_ext; intros v; rewrite Hcn; reflexivity).
+    rewrite E. reflexivity.
   Qed.
 End GenAgree.
+
+(** ** declarations: under [decl_safe] the pre-assigned names are the usual ones *)
+Lemma assign_gen_free {K} (base : K -> name) : forall keys taken acc,
+  NoDup (map base keys) -> (forall k, In k keys -> ~ In (base k) taken) ->
+  assign_gen base keys taken acc = (acc ++ map (fun k => (k, base k)) keys, rev (map base keys) ++ taken).
+Proof.
+  induction keys as [|k r IH]; intros taken acc ND Hfree; simpl; [rewrite app_nil_r; reflexivity|].
+  inversion ND as [|? ? Hn ND']; subst.
+  assert (Hm : mem (base k) taken = false) by (apply mem_false; apply (Hfree k); left; reflexivity).
+  rewrite Hm. rewrite IH; [rewrite <- !app_assoc; reflexivity | exact ND'|].
+  intros k' Hk' [E|Hin].
+  - apply Hn. rewrite E. apply in_map. exact Hk'.
+  - apply (Hfree k' (or_intror Hk') Hin).
+Qed.
+
+Lemma reserved_is : reserved_identifiers = go_reserved ++ [bs "json"].
+Proof. reflexivity. Qed.
+
+Section DeclNames.
+  Variable S : schema.
+  Variable d : document.
+  Hypothesis Hsafe : decl_safe S d = true.
+
+  Lemma doc_decl_names_Dn : doc_decl_names d = Dn d.
+  Proof. unfold doc_decl_names, Dn, frag_names. rewrite map_map. reflexivity. Qed.
+
+  Lemma declared_parts :
+    NoDup (map fst (enumsS S)) /\ NoDup (flat_map consts_of (enumsS S)) /\
+    (forall x, In x (map fst (enumsS S)) -> ~ In x (reserved_identifiers ++ doc_decl_names d)) /\
+    (forall x, In x (flat_map consts_of (enumsS S)) ->
+               ~ In x (rev (map (fun n : name => n) (map fst (enumsS S))) ++ reserved_identifiers ++ doc_decl_names d)).
+  Proof.
+    destruct (decl_safe_elim S d Hsafe) as (D1 & D2 & _ & D4 & _).
+    unfold declared in D1. destruct (NoDup_app_elim _ _ D1) as [NEs [NCD DisE]]. destruct (NoDup_app_elim _ _ NCD) as [NCs [_ DisC]].
+    assert (Hres : forall x, In x (declared S d) -> ~ In x reserved_identifiers).
+    { intros x Hx Hr. rewrite reserved_is in Hr. apply in_app_iff in Hr as [Hr|[Hr|[]]].
+      - pose proof (go_ident_not_reserved x (D2 x Hx)) as Hm. apply mem_false in Hm. apply Hm. exact Hr.
+      - subst x. apply D4. exact Hx. }
+    split; [exact NEs|]. split; [exact NCs|]. split.
+    - intros x Hx Hi. apply in_app_iff in Hi as [Hi|Hi].
+      + apply (Hres x); [unfold declared; apply in_app_iff; left; exact Hx | exact Hi].
+      + rewrite doc_decl_names_Dn in Hi. apply (DisE x Hx). apply in_app_iff. right. exact Hi.
+    - intros x Hx Hi. apply in_app_iff in Hi as [Hi|Hi].
+      + rewrite map_id in Hi. apply in_rev in Hi. apply (DisE x Hi). apply in_app_iff. left. exact Hx.
+      + apply in_app_iff in Hi as [Hi|Hi].
+        * apply (Hres x); [unfold declared; apply in_app_iff; right; apply in_app_iff; left; exact Hx | exact Hi].
+        * rewrite doc_decl_names_Dn in Hi. apply (DisC x Hx Hi).
+  Qed.
+
+  Lemma enum_map_is :
+    enum_name_map S d = (map (fun k : name => (k, k)) (map fst (enumsS S)),
+                         rev (map (fun n : name => n) (map fst (enumsS S))) ++ reserved_identifiers ++ doc_decl_names d).
+  Proof.
+    destruct declared_parts as (N1 & _ & F1 & _).
+    unfold enum_name_map. change (schema_enums S) with (enumsS S).
+    rewrite (assign_gen_free (fun n : name => n)); [reflexivity | rewrite map_id; exact N1 | exact F1].
+  Qed.
+
+  Lemma enum_go_name_id n : enum_go_name S d n = n.
+  Proof.
+    unfold enum_go_name. rewrite enum_map_is. cbn [fst].
+    induction (map fst (enumsS S)) as [|x r IH]; simpl; [reflexivity|].
+    destruct (bytes_eqb x n) eqn:E; [apply bytes_eqb_true in E; exact E | exact IH].
+  Qed.
+
+  Lemma const_go_name_id n v : const_go_name S d n v = enum_const n v.
+  Proof.
+    destruct declared_parts as (_ & N2 & _ & F2).
+    unfold const_go_name. rewrite enum_go_name_id.
+    change (n ++ const_suffix v) with (enum_const n v).
+    unfold const_name_map. rewrite enum_map_is. cbn [snd]. change (schema_enums S) with (enumsS S).
+    set (base := fun nv : name * name => enum_go_name S d (fst nv) ++ const_suffix (snd nv)).
+    set (ckeys := flat_map (fun e : name * list name => map (fun v0 => (fst e, v0)) (snd e)) (enumsS S)).
+    assert (Eb : forall nv, base nv = enum_const (fst nv) (snd nv)) by (intros nv; unfold base; rewrite enum_go_name_id; reflexivity).
+    assert (Em' : forall l, map base (flat_map (fun e : name * list name => map (fun v0 => (fst e, v0)) (snd e)) l) = flat_map consts_of l).
+    { induction l as [|e r IH]; [reflexivity|]. simpl. rewrite map_app, IH. f_equal.
+      unfold consts_of. rewrite map_map. apply map_ext. intros v0. rewrite Eb. reflexivity. }
+    assert (Em : map base ckeys = flat_map consts_of (enumsS S)) by (apply Em').
+    rewrite (assign_gen_free base ckeys).
+    2: { pose proof N2 as X. rewrite <- Em in X. exact X. }
+    2: { intros k Hk. apply F2. pose proof (in_map base ckeys k Hk) as X. rewrite Em in X. exact X. }
+    cbn [fst app]. clear Em. induction ckeys as [|[a b] r IH]; simpl; [reflexivity|].
+    destruct (bytes_eqb a n && bytes_eqb b v) eqn:E; [|exact IH].
+    apply andb_true_iff in E as [E1 E2]. apply bytes_eqb_true in E1. apply bytes_eqb_true in E2. subst a b. rewrite Eb. reflexivity.
+  Qed.
+End DeclNames.
 
 (** ** whole documents *)
 Section DocAgree.
@@ -428,7 +523,8 @@ Section DocAgree.
 
   Lemma process_defs_agree : forall defs st out e,
     Forall (def_ok S frs fuel) defs -> (forall x, In x defs -> SelsIn (KeysD d) (DashD S d) (snd (fst x))) ->
-    process_defs_s S fragTypes fuel defs st out e = process_defs no_quirks S fuel fragTypes defs st out e.
+    process_defs_s S fragTypes (enum_go_name S d) (const_go_name S d) fuel defs st out e =
+    process_defs no_quirks S fuel fragTypes defs st out e.
   Proof.
     destruct (decl_safe_elim S d Hsafe) as (_ & _ & _ & _ & _ & D6 & _).
     assert (HS : schema_ok S = true) by (unfold env in Henv; do 3 (apply andb_true_iff in Henv as [Henv _]); exact Henv).
@@ -441,7 +537,8 @@ Section DocAgree.
     assert (Hcr : composite S r = true).
     { pose proof Ha as Ha2. unfold sel_fuel in Ha2. rewrite all_structs_S in Ha2. apply andb_true_iff in Ha2 as [He _]. unfold EL2 in He.
       apply andb_true_iff in He as [Hel _]. apply (env_local_elim _ _ _ _ Hel). }
-    unfold fragTypes. rewrite (gen_agree S frs HS (KeysD d) (DashD S d) HDash HComp fuel r sels st).
+    unfold fragTypes. rewrite (gen_agree S frs HS (KeysD d) (DashD S d) HDash HComp (enum_go_name S d) (const_go_name S d)
+                                         (enum_go_name_id S d Hsafe) (const_go_name_id S d Hsafe) fuel r sels st).
     - fold fragTypes. destruct (gen_named no_quirks S fragTypes fuel r sels st) as [[[core b] st1]| | |]; try reflexivity; apply IH; assumption.
     - intros _. exists (sel_fuel sels). split; [exact Ha | apply (Hs _ (or_introl eq_refl))].
     - intros Hc. rewrite Hcr in Hc. discriminate.
